@@ -1,6 +1,7 @@
 //! Correspondence harness for the codec-style properties (C16 C17 C18 C19 C20).
 use std::path::{Path, PathBuf};
 
+use wxharness::evgen::*;
 use wxharness::*;
 
 fn main() {
@@ -12,6 +13,7 @@ fn main() {
 		"signals" => signals(&args[2]),
 		"signals-table" => signals_table(),
 		"exitstatus" => exitstatus(&args[2]),
+		"paths-summary" => paths_summary(&args[2]),
 		"events-kinds" => events_kinds(),
 		"events-encode" => events_encode(&args[2]),
 		"events-decode" => events_decode(&args[2]),
@@ -197,43 +199,6 @@ fn exitstatus(cases: &str) {
 
 // ---------------------------------------------------------------- C16
 
-pub fn all_fs_kinds() -> Vec<watchexec_events::filekind::FileEventKind> {
-	use watchexec_events::filekind::*;
-	let am = [AccessMode::Any, AccessMode::Execute, AccessMode::Read, AccessMode::Write, AccessMode::Other];
-	let mut v = vec![FileEventKind::Any];
-	v.push(FileEventKind::Access(AccessKind::Any));
-	v.push(FileEventKind::Access(AccessKind::Read));
-	for m in am {
-		v.push(FileEventKind::Access(AccessKind::Open(m)));
-	}
-	for m in am {
-		v.push(FileEventKind::Access(AccessKind::Close(m)));
-	}
-	v.push(FileEventKind::Access(AccessKind::Other));
-	for k in [CreateKind::Any, CreateKind::File, CreateKind::Folder, CreateKind::Other] {
-		v.push(FileEventKind::Create(k));
-	}
-	v.push(FileEventKind::Modify(ModifyKind::Any));
-	for d in [DataChange::Any, DataChange::Size, DataChange::Content, DataChange::Other] {
-		v.push(FileEventKind::Modify(ModifyKind::Data(d)));
-	}
-	for m in [
-		MetadataKind::Any, MetadataKind::AccessTime, MetadataKind::WriteTime, MetadataKind::Permissions,
-		MetadataKind::Ownership, MetadataKind::Extended, MetadataKind::Other,
-	] {
-		v.push(FileEventKind::Modify(ModifyKind::Metadata(m)));
-	}
-	for r in [RenameMode::Any, RenameMode::To, RenameMode::From, RenameMode::Both, RenameMode::Other] {
-		v.push(FileEventKind::Modify(ModifyKind::Name(r)));
-	}
-	v.push(FileEventKind::Modify(ModifyKind::Other));
-	for k in [RemoveKind::Any, RemoveKind::File, RemoveKind::Folder, RemoveKind::Other] {
-		v.push(FileEventKind::Remove(k));
-	}
-	v.push(FileEventKind::Other);
-	v
-}
-
 fn events_kinds() {
 	use watchexec_events::Tag;
 	for k in all_fs_kinds() {
@@ -242,87 +207,6 @@ fn events_kinds() {
 		let back: Tag = serde_json::from_str(&js).unwrap();
 		emit(&json!({"debug": format!("{k:?}"), "json": js, "roundtrip": back == t}));
 	}
-}
-
-fn mk_signal(v: &Value) -> watchexec_signals::Signal {
-	use watchexec_signals::Signal::*;
-	if let Some(n) = v.as_i64() {
-		return Custom(n as i32);
-	}
-	match v.as_str().unwrap() {
-		"Hangup" => Hangup,
-		"ForceStop" => ForceStop,
-		"Interrupt" => Interrupt,
-		"Quit" => Quit,
-		"Terminate" => Terminate,
-		"User1" => User1,
-		"User2" => User2,
-		o => panic!("signal {o}"),
-	}
-}
-
-pub fn mk_tag(t: &Value) -> watchexec_events::Tag {
-	use std::num::{NonZeroI32, NonZeroI64};
-	use watchexec_events::{FileType, Keyboard, ProcessEnd, Source, Tag};
-	match t["t"].as_str().unwrap() {
-		"path" => Tag::Path {
-			path: t["p"].as_str().unwrap().into(),
-			file_type: t["ft"].as_str().map(|f| match f {
-				"file" => FileType::File,
-				"dir" => FileType::Dir,
-				"symlink" => FileType::Symlink,
-				_ => FileType::Other,
-			}),
-		},
-		"fek" => {
-			let want = t["k"].as_str().unwrap();
-			Tag::FileEventKind(
-				all_fs_kinds().into_iter().find(|k| format!("{k:?}") == want).expect("kind"),
-			)
-		}
-		"source" => Tag::Source(match t["s"].as_str().unwrap() {
-			"Filesystem" => Source::Filesystem,
-			"Keyboard" => Source::Keyboard,
-			"Mouse" => Source::Mouse,
-			"Os" => Source::Os,
-			"Time" => Source::Time,
-			_ => Source::Internal,
-		}),
-		"keyboard" => Tag::Keyboard(Keyboard::Eof),
-		"process" => Tag::Process(t["pid"].as_u64().unwrap() as u32),
-		"signal" => Tag::Signal(mk_signal(&t["s"])),
-		"completion" => {
-			let e = &t["e"];
-			Tag::ProcessCompletion(if e.is_null() {
-				None
-			} else {
-				Some(match e["d"].as_str().unwrap() {
-					"Success" => ProcessEnd::Success,
-					"Continued" => ProcessEnd::Continued,
-					"ExitError" => ProcessEnd::ExitError(NonZeroI64::new(e["c"].as_i64().unwrap()).unwrap()),
-					"ExitStop" => ProcessEnd::ExitStop(NonZeroI32::new(e["c"].as_i64().unwrap() as i32).unwrap()),
-					"Exception" => ProcessEnd::Exception(NonZeroI32::new(e["c"].as_i64().unwrap() as i32).unwrap()),
-					"ExitSignal" => ProcessEnd::ExitSignal(mk_signal(&e["s"])),
-					o => panic!("disposition {o}"),
-				})
-			})
-		}
-		"unknown" => Tag::Unknown,
-		o => panic!("tag {o}"),
-	}
-}
-
-pub fn mk_event(case: &Value) -> watchexec_events::Event {
-	let mut e = watchexec_events::Event::default();
-	for t in case["tags"].as_array().unwrap() {
-		e.tags.push(mk_tag(t));
-	}
-	if let Some(m) = case["meta"].as_object() {
-		for (k, v) in m {
-			e.metadata.insert(k.clone(), strs(v));
-		}
-	}
-	e
 }
 
 fn events_encode(cases: &str) {
@@ -342,5 +226,19 @@ fn events_decode(cases: &str) {
 			Ok(e) => serde_json::to_string(&e).unwrap(),
 			Err(_) => "ERR".into(),
 		}}));
+	}
+}
+
+// ---------------------------------------------------------------- C17
+
+fn paths_summary(cases: &str) {
+	for case in read_cases(cases) {
+		let events: Vec<watchexec_events::Event> =
+			case["events"].as_array().unwrap().iter().map(mk_event).collect();
+		let map = watchexec::paths::summarise_events_to_env(events.iter());
+		let mut v: Vec<(String, String)> =
+			map.into_iter().map(|(k, v)| (k.to_owned(), v.to_string_lossy().into_owned())).collect();
+		v.sort();
+		emit(&json!({"summary": v}));
 	}
 }
